@@ -75,4 +75,5 @@ def run(ctx, R):
     a64hsem.rule_mem_hsem(ctx, R)
     rvhsem.rule_mem_hsem(ctx, R)
     a64dsread.rule_dsread(ctx, R)
+    a64dsread.rule_loopload(ctx, R)
     rvdsread.rule_dsread(ctx, R)
